@@ -363,4 +363,51 @@ example : String.ofList ((render exSentence exLayout0).map (fun b => Char.ofNat 
     "-42 5000000000h '\\n' 'A' MIDI [0x01 0x02 0xfe 0xff] \"hi\\n\"\\\"\"\\\"\\\"\" \"\"S An_Identifier_12345 BLOB [2 0x72 0x74] now 123i #8badf00d" := by
   decide +kernel
 
+/-! ### instances of the full statement outside the proved class (evaluated, not general) -/
+
+/-- the decidable form of "the sentence denotes cells and its text is read as them" -/
+def agrees (s : Sentence) (L : Layout) : Bool :=
+  match cells s with
+  | some cs =>
+    decide (C11.countPrintedArgVals (render s L) = .ok (cs.length : Int)) &&
+    decide (C11.scanArgVals (render s L) cs.length = .ok ((render s L).length, cs))
+  | none => false
+
+theorem agrees_reads (s : Sentence) (L : Layout) (h : agrees s L = true) :
+    ∃ cs, cells s = some cs ∧ Reads (render s L) cs := by
+  unfold agrees at h
+  cases hc : cells s with
+  | none => rw [hc] at h; cases h
+  | some cs =>
+    rw [hc] at h
+    simp only [Bool.and_eq_true, decide_eq_true_eq] at h
+    exact ⟨cs, rfl, h.1, h.2⟩
+
+/-- `10 8...2 3x["b" "c"] [1 2...] [1...5] [] [1 1...] 4xnil`: integer ranges with and without a
+    left neighbour, open-ended arrays with and without a step -/
+def exRanges : Sentence :=
+  [.val (.int 10 .dec false), .range (.int 8 .dec false) (.int 2 .dec false),
+   .rep 3 (.arr [.val (.str false [[.raw 98]]), .val (.str false [[.raw 99]])] false),
+   .arr [.val (.int 1 .dec false), .val (.int 2 .dec false)] true, .arr [.range (.int 1 .dec false) (.int 5 .dec false)] false,
+   .arr [] false, .arr [.val (.int 1 .dec false), .val (.int 1 .dec false)] true, .rep 4 (.val (.kw .nil))]
+
+example : cells exRanges = some
+    [.int .i 10, .rep 4 1, .int .i (-2), .int .i 8, .rep 3 0, .arr 115 2, .str .s (some [98]), .str .s (some [99]),
+     .arr 105 4, .int .i 1, .rep 0 1, .int .i 1, .int .i 2, .arr 105 3, .rep 5 1, .int .i 1, .int .i 1, .arr 32 0,
+     .arr 105 3, .int .i 1, .rep 0 0, .int .i 1, .rep 4 0, .flag .N] := by decide +kernel
+
+example : agrees exRanges L0 = true ∧ agrees exRanges exLayout = true := by decide +kernel
+
+/-- `0.0 0.3...1.1995 -10E+2d 0.000061 (0x0.1p-10) 0x2ah 052i`: a float range inside the tolerance
+    (nearest step count, fix C11-05), exponent / exact / suffixed spellings -/
+def exFloats : Sentence :=
+  [.val (.flt false false (.dec ⟨false, [0], some [0], none, false, false⟩) none),
+   .range (.flt false false (.dec ⟨false, [0], some [3], none, false, false⟩) none)
+          (.flt false false (.dec ⟨false, [1], some [1, 9, 9, 5], none, false, false⟩) none),
+   .val (.flt true true (.dec ⟨true, [1, 0], none, some 2, true, true⟩) none),
+   .val (.flt false false (.dec ⟨false, [0], some [0, 0, 0, 0, 6, 1], none, false, false⟩) (some ⟨false, [0], some [1], -10⟩)),
+   .val (.huge 42 .hex), .val (.int 42 .oct true)]
+
+example : agrees exFloats L0 = true ∧ agrees exFloats exLayout = true := by decide +kernel
+
 end Rtosc.Pretty.C11
